@@ -31,6 +31,11 @@ func init() {
 		if ki%2 == 1 {
 			cert = leafCert(key, "variable signer (CA-issued)", int64(1000+ki))
 		}
+		if ki >= 10 {
+			// a certificate so large that the SignedData exceeds 64 KiB
+			key = rsaKey(2048, 0)
+			cert = storeFatCert(key, cert)
+		}
 		rec := &recSigner{key: key, slow: len(a) > 5 && a[5] == "slow"}
 		t0 := time.Now().UTC()
 		av, m, err := signature.SignEFIVariable(efivar.Efivar{Name: name, GUID: &g, Attributes: attributes.Attributes(at)}, rawValue(payload), rec, cert)
@@ -116,6 +121,9 @@ func runC06(c *Ctx) {
 		}
 		zone := zones[i%len(zones)]
 		ki := rng.Intn(2)
+		if i == len(zones) {
+			ki = 10
+		}
 		// the first case of every zone uses a signer that takes until the next second has begun:
 		// the descriptor and the signed buffer must still carry one and the same time
 		speed := ""
